@@ -13,9 +13,11 @@
 //! stderr, each naming the function and the construct). A function that is not
 //! understood completely is never emitted.
 
+mod adapt;
 mod call;
 mod expr;
 mod ir;
+mod stdtab;
 mod stmt;
 mod tr;
 
@@ -40,8 +42,12 @@ const EXTERNALS: &[(&str, &str)] = &[
 enum Loc {
     /// a free function of the file (the stable variant when there are two)
     Free(&'static str),
+    /// the `#[cfg(feature = "unstable")]` variant of a free function
+    FreeU(&'static str),
     /// a method: (type, trait, name); the trait as written in the impl, without generics
     Method(&'static str, Option<&'static str>, &'static str),
+    /// a method of a generic trait implemented more than once: (type, trait, the generic arguments of the trait, name)
+    MethodG(&'static str, &'static str, &'static str, &'static str),
     /// a function declared inside the body of another: (key of the parent, name)
     Nested(&'static str, &'static str),
 }
@@ -125,6 +131,12 @@ fn units() -> Vec<Unit> {
         u("slice_take_first_mut", "slice_take_first_mut@stable", IT, Loc::Free("slice_take_first_mut"), "slice_take_first_mut", true),
         u("slice_take_last", "slice_take_last@stable", IT, Loc::Free("slice_take_last"), "slice_take_last", true),
         u("slice_take_last_mut", "slice_take_last_mut@stable", IT, Loc::Free("slice_take_last_mut"), "slice_take_last_mut", true),
+        u("u_slice_take", "slice_take@unstable", IT, Loc::FreeU("slice_take"), "u_slice_take", false),
+        u("u_slice_take_mut", "slice_take_mut@unstable", IT, Loc::FreeU("slice_take_mut"), "u_slice_take_mut", false),
+        u("u_slice_take_first", "slice_take_first@unstable", IT, Loc::FreeU("slice_take_first"), "u_slice_take_first", true),
+        u("u_slice_take_first_mut", "slice_take_first_mut@unstable", IT, Loc::FreeU("slice_take_first_mut"), "u_slice_take_first_mut", true),
+        u("u_slice_take_last", "slice_take_last@unstable", IT, Loc::FreeU("slice_take_last"), "u_slice_take_last", true),
+        u("u_slice_take_last_mut", "slice_take_last_mut@unstable", IT, Loc::FreeU("slice_take_last_mut"), "u_slice_take_last_mut", true),
         u("Iter_empty", "Iter::empty", IT, Loc::Method("Iter", None, "empty"), "iter_empty", true),
         u("Iter_new", "Iter::new", IT, Loc::Method("Iter", None, "new"), "iter_new", false),
         u("Iter_advance_front_by", "Iter::advance_front_by", IT, Loc::Method("Iter", None, "advance_front_by"), "advance_front_by", false),
@@ -161,9 +173,43 @@ fn units() -> Vec<Unit> {
         u("Drain_next_back", "<Drain as DoubleEndedIterator>::next_back", DR, Loc::Method("Drain", Some("DoubleEndedIterator"), "next_back"), "drain_next_back", false),
         u("Drain_len", "<Drain as ExactSizeIterator>::len", DR, Loc::Method("Drain", Some("ExactSizeIterator"), "len"), "drain_len", true),
         Unit { fuel: &["Z.to_nat {remaining}"], ..u("Drain_drop", "<Drain as Drop>::drop", DR, Loc::Method("Drain", Some("Drop"), "drop"), "drain_drop", false) },
+        Unit { fuel: &["S (Z.to_nat (slen (it_right {iter}) + slen (it_left {iter})))"], ..u("Iter_fmt", "<Iter as Debug>::fmt", IT, Loc::Method("Iter", Some("fmt::Debug"), "fmt"), "iter_fmt", false) },
+        u("IterMut_fmt", "<IterMut as Debug>::fmt", IT, Loc::Method("IterMut", Some("fmt::Debug"), "fmt"), "iter_mut_fmt", false),
+        u("IntoIter_fmt", "<IntoIter as Debug>::fmt", IT, Loc::Method("IntoIter", Some("fmt::Debug"), "fmt"), "into_iter_fmt", false),
+        u("Drain_fmt", "<Drain as Debug>::fmt", DR, Loc::Method("Drain", Some("fmt::Debug"), "fmt"), "drain_fmt", false),
+        // no definition of their own in the model: the statement is written with the model's functions (tools/coregen.py, SPECIAL)
+        u("Iter_size_hint", "<Iter as Iterator>::size_hint", IT, Loc::Method("Iter", Some("Iterator"), "size_hint"), "iter_len", false),
+        u("IterMut_size_hint", "<IterMut as Iterator>::size_hint", IT, Loc::Method("IterMut", Some("Iterator"), "size_hint"), "iter_mut_len", false),
+        u("IntoIter_size_hint", "<IntoIter as Iterator>::size_hint", IT, Loc::Method("IntoIter", Some("Iterator"), "size_hint"), "into_iter_len", false),
+        u("Drain_size_hint", "<Drain as Iterator>::size_hint", DR, Loc::Method("Drain", Some("Iterator"), "size_hint"), "drain_len", true),
+        u("CircularSlicePtr_clone", "<CircularSlicePtr as Clone>::clone", DR, Loc::Method("CircularSlicePtr", Some("Clone"), "clone"), "(identity)", true),
     ]);
     const LB: &str = "src/lib.rs";
     v.extend([
+        Unit { fuel: &["S (Z.to_nat {size})"], ..u("buf_fmt", "<CircularBuffer as Debug>::fmt", LB, Loc::Method("CircularBuffer", Some("fmt::Debug"), "fmt"), "buf_fmt", false) },
+        Unit { fuel: &["S (Z.to_nat {size})"], ..u("buf_hash", "<CircularBuffer as Hash>::hash", LB, Loc::Method("CircularBuffer", Some("Hash"), "hash"), "buf_hash", false) },
+        Unit { fuel: &["S (Z.to_nat {size})"], ..u("buf_partial_cmp", "<CircularBuffer as PartialOrd<CircularBuffer<M, U>>>::partial_cmp", LB, Loc::Method("CircularBuffer", Some("PartialOrd"), "partial_cmp"), "buf_partial_cmp", false) },
+        Unit { fuel: &["S (Z.to_nat {size})"], ..u("buf_cmp", "<CircularBuffer as Ord>::cmp", LB, Loc::Method("CircularBuffer", Some("Ord"), "cmp"), "buf_cmp", false) },
+        u("buf_eq", "<CircularBuffer as PartialEq<CircularBuffer<M, U>>>::eq", LB, Loc::MethodG("CircularBuffer", "PartialEq", "< CircularBuffer < M , U > >", "eq"), "buf_eq", false),
+        u("buf_eq_slice", "<CircularBuffer as PartialEq<[U]>>::eq", LB, Loc::MethodG("CircularBuffer", "PartialEq", "< [U] >", "eq"), "buf_eq_slice", false),
+        u("buf_eq_array", "<CircularBuffer as PartialEq<[U; M]>>::eq", LB, Loc::MethodG("CircularBuffer", "PartialEq", "< [U ; M] >", "eq"), "buf_eq_array", false),
+        u("buf_eq_slice_ref", "<CircularBuffer as PartialEq<&[U]>>::eq", LB, Loc::MethodG("CircularBuffer", "PartialEq", "< & 'a [U] >", "eq"), "buf_eq_slice_ref", false),
+        u("buf_eq_slice_mut", "<CircularBuffer as PartialEq<&mut [U]>>::eq", LB, Loc::MethodG("CircularBuffer", "PartialEq", "< & 'a mut [U] >", "eq"), "buf_eq_slice_mut", false),
+        u("buf_eq_array_ref", "<CircularBuffer as PartialEq<&[U; M]>>::eq", LB, Loc::MethodG("CircularBuffer", "PartialEq", "< & 'a [U ; M] >", "eq"), "buf_eq_array_ref", false),
+        u("buf_eq_array_mut", "<CircularBuffer as PartialEq<&mut [U; M]>>::eq", LB, Loc::MethodG("CircularBuffer", "PartialEq", "< & 'a mut [U ; M] >", "eq"), "buf_eq_array_mut", false),
+        u("extend", "<CircularBuffer as Extend<T>>::extend", LB, Loc::MethodG("CircularBuffer", "Extend", "< T >", "extend"), "extend", false),
+        u("extend_ref", "<CircularBuffer as Extend<&T>>::extend", LB, Loc::MethodG("CircularBuffer", "Extend", "< & 'a T >", "extend"), "extend_ref", false),
+        Unit { fuel: &["S (Z.to_nat (size other'))"], ..u("clone_from", "<CircularBuffer as Clone>::clone_from", LB, Loc::Method("CircularBuffer", Some("Clone"), "clone_from"), "clone_from", false) },
+        Unit { fuel: &["S (Z.to_nat {size})"], ..u("clone", "<CircularBuffer as Clone>::clone", LB, Loc::Method("CircularBuffer", Some("Clone"), "clone"), "clone_buf", false) },
+        u("from_array", "<CircularBuffer as From<[T; M]>>::from", LB, Loc::Method("CircularBuffer", Some("From"), "from"), "from_array", false),
+        u("into_iter", "<CircularBuffer as IntoIterator>::into_iter", LB, Loc::Method("CircularBuffer", Some("IntoIterator"), "into_iter"), "", false),
+        u("to_vec", "CircularBuffer::to_vec", LB, Loc::Method("CircularBuffer", None, "to_vec"), "to_vec", false),
+        u("boxed", "CircularBuffer::boxed", LB, Loc::Method("CircularBuffer", None, "boxed"), "boxed", false),
+        u("from_iter", "<CircularBuffer as FromIterator<T>>::from_iter", LB, Loc::Method("CircularBuffer", Some("FromIterator"), "from_iter"), "from_iter", false),
+        u("slice_assume_init_ref", "slice_assume_init_ref", LB, Loc::Free("slice_assume_init_ref"), "(identity)", true),
+        u("slice_assume_init_mut", "slice_assume_init_mut", LB, Loc::Free("slice_assume_init_mut"), "(identity)", true),
+        u("new", "CircularBuffer::new", LB, Loc::Method("CircularBuffer", None, "new"), "new_buf", true),
+        u("ref_into_iter", "<&CircularBuffer as IntoIterator>::into_iter", LB, Loc::Method("&CircularBuffer", Some("IntoIterator"), "into_iter"), "ref_into_iter", false),
         u("index", "<CircularBuffer as Index<usize>>::index", LB, Loc::Method("CircularBuffer", Some("Index"), "index"), "index", false),
         u("index_mut", "<CircularBuffer as IndexMut<usize>>::index_mut", LB, Loc::Method("CircularBuffer", Some("IndexMut"), "index_mut"), "index_mut", false),
         u("default", "<CircularBuffer as Default>::default", LB, Loc::Method("CircularBuffer", Some("Default"), "default"), "default_buf", false),
@@ -209,6 +255,8 @@ struct Src {
     span: Span,
     /// of the impl
     owner: Option<String>,
+    /// the impl is for `&Owner`: `self` by value is a shared reference
+    ref_impl: bool,
     impl_generics: Option<syn::Generics>,
     assoc: HashMap<String, syn::Type>,
 }
@@ -243,19 +291,33 @@ fn trait_name(p: &syn::Path) -> String {
     p.segments.iter().map(|s| s.ident.to_string()).collect::<Vec<_>>().join("::")
 }
 
+/// the name of the type an impl is for; `&Type` for `impl Trait for &'a Type<..>`
+fn impl_type_name(im: &syn::ItemImpl) -> Option<String> {
+    match &*im.self_ty {
+        syn::Type::Path(p) => p.path.segments.last().map(|s| s.ident.to_string()),
+        syn::Type::Reference(r) if r.mutability.is_none() => match &*r.elem {
+            syn::Type::Path(p) => p.path.segments.last().map(|s| format!("&{}", s.ident)),
+            _ => None,
+        },
+        _ => None,
+    }
+}
+
 fn find(file: &syn::File, loc: Loc, parents: &HashMap<String, Src>) -> Result<Src, String> {
     let mut hits: Vec<Src> = vec![];
     match loc {
-        Loc::Free(name) => {
+        Loc::Free(name) | Loc::FreeU(name) => {
+            let unstable = matches!(loc, Loc::FreeU(_));
             for it in &file.items {
                 if let Item::Fn(f) = it {
-                    if f.sig.ident == name && stable_variant(&f.attrs) != Some(false) {
+                    if f.sig.ident == name && (if unstable { stable_variant(&f.attrs) == Some(false) } else { stable_variant(&f.attrs) != Some(false) }) {
                         hits.push(Src {
                             sig: f.sig.clone(),
                             attrs: f.attrs.clone(),
                             block: (*f.block).clone(),
                             span: f.span(),
                             owner: None,
+                            ref_impl: false,
                             impl_generics: None,
                             assoc: HashMap::new(),
                         });
@@ -263,16 +325,18 @@ fn find(file: &syn::File, loc: Loc, parents: &HashMap<String, Src>) -> Result<Sr
                 }
             }
         }
-        Loc::Method(ty, tr, name) => {
+        Loc::Method(..) | Loc::MethodG(..) => {
+            let (ty, tr, targs, name) = match loc {
+                Loc::Method(a, b, c) => (a, b, None, c),
+                Loc::MethodG(a, b, g, c) => (a, Some(b), Some(g), c),
+                _ => unreachable!(),
+            };
             for it in &file.items {
                 let im = match it {
                     Item::Impl(im) => im,
                     _ => continue,
                 };
-                let tn = match &*im.self_ty {
-                    syn::Type::Path(p) => p.path.segments.last().map(|s| s.ident.to_string()),
-                    _ => None,
-                };
+                let tn = impl_type_name(im);
                 if tn.as_deref() != Some(ty) {
                     continue;
                 }
@@ -280,14 +344,17 @@ fn find(file: &syn::File, loc: Loc, parents: &HashMap<String, Src>) -> Result<Sr
                 if itr.as_deref() != tr {
                     continue;
                 }
+                if let Some(want) = targs {
+                    let got = im.trait_.as_ref().and_then(|(_, p, _)| p.segments.last()).map(|s| norm_tokens(&s.arguments)).unwrap_or_default();
+                    if got != want {
+                        continue;
+                    }
+                }
                 // `Self::Item` in an impl of DoubleEndedIterator is the Item of the Iterator impl
                 let mut assoc = HashMap::new();
                 for it2 in &file.items {
                     if let Item::Impl(im2) = it2 {
-                        let tn2 = match &*im2.self_ty {
-                            syn::Type::Path(p) => p.path.segments.last().map(|s| s.ident.to_string()),
-                            _ => None,
-                        };
+                        let tn2 = impl_type_name(im2);
                         if tn2.as_deref() != Some(ty) {
                             continue;
                         }
@@ -310,7 +377,8 @@ fn find(file: &syn::File, loc: Loc, parents: &HashMap<String, Src>) -> Result<Sr
                                 attrs: f.attrs.clone(),
                                 block: f.block.clone(),
                                 span: f.span(),
-                                owner: Some(ty.to_string()),
+                                owner: Some(ty.trim_start_matches('&').to_string()),
+                                ref_impl: ty.starts_with('&'),
                                 impl_generics: Some(im.generics.clone()),
                                 assoc: assoc.clone(),
                             });
@@ -330,6 +398,7 @@ fn find(file: &syn::File, loc: Loc, parents: &HashMap<String, Src>) -> Result<Sr
                             block: (*f.block).clone(),
                             span: f.span(),
                             owner: None,
+                            ref_impl: false,
                             impl_generics: None,
                             assoc: HashMap::new(),
                         });
@@ -345,18 +414,44 @@ fn find(file: &syn::File, loc: Loc, parents: &HashMap<String, Src>) -> Result<Sr
     }
 }
 
-/// the generic parameters of a function and of its impl: which are ranges, is `N` the capacity,
-/// is there a closure parameter
-fn generics_of(gs: &[&syn::Generics]) -> Res<(Vec<String>, bool, Vec<String>)> {
-    let mut bounds: Vec<String> = vec![];
-    let mut closures: Vec<String> = vec![];
-    let mut has_n = false;
-    let mut check_bounds = |name: &str, bs: Vec<String>, sp: Span| -> Res<()> {
+/// the generic parameters of a function and of its impl
+#[derive(Default)]
+struct Gens {
+    /// the type parameters bounded by `RangeBounds<usize>`
+    bounds: Vec<String>,
+    /// `N: usize` is there (the capacity)
+    has_n: bool,
+    /// the closure parameter of fill_with / fill_spare_with
+    closures: Vec<String>,
+    osrs: Vec<String>,
+    hashers: Vec<String>,
+    /// `T: PartialEq<U>`: the comparison of the elements is a parameter (eqf)
+    eqf: bool,
+    /// `T: PartialOrd<U>` / `T: Ord`: the order of the elements is a parameter (cmpf)
+    cmpf: bool,
+    /// `I: IntoIterator<Item = T>` / `<Item = &'a T>`
+    drivers: Vec<(String, Ty)>,
+    /// `T: Copy`
+    copy: bool,
+}
+
+fn generics_of(gs: &[&syn::Generics]) -> Res<Gens> {
+    let mut r = Gens::default();
+    let check_bounds = |r: &mut Gens, name: &str, bs: Vec<String>, sp: Span| -> Res<()> {
         for b in bs {
             match b.as_str() {
-                "RangeBounds < usize >" => bounds.push(name.to_string()),
-                "FnMut () -> T" if name == "F" => closures.push(name.to_string()),
-                "Clone" | "Copy" if name == "T" => {}
+                "RangeBounds < usize >" => r.bounds.push(name.to_string()),
+                "core :: ops :: OneSidedRange < usize >" => r.osrs.push(name.to_string()),
+                "FnMut () -> T" if name == "F" => r.closures.push(name.to_string()),
+                "Clone" if name == "T" => {}
+                "Copy" if name == "T" => r.copy = true,
+                "IntoIterator < Item = T >" if name == "I" => r.drivers.push((name.to_string(), Ty::Elem)),
+                "IntoIterator < Item = & 'a T >" if name == "I" => r.drivers.push((name.to_string(), Ty::ElemRef)),
+                // the element operations of the trait impls: see Machine.v (events, fault plan)
+                "PartialEq < U >" if name == "T" => r.eqf = true,
+                "PartialOrd < U >" | "Ord" if name == "T" => r.cmpf = true,
+                "Eq" | "Hash" | "fmt :: Debug" if name == "T" => {}
+                "Hasher" if name != "T" && name != "U" => r.hashers.push(name.to_string()),
                 other => return unsupported(&format!("bound `{}: {}`", name, other), sp),
             }
         }
@@ -366,10 +461,12 @@ fn generics_of(gs: &[&syn::Generics]) -> Res<(Vec<String>, bool, Vec<String>)> {
         for p in &g.params {
             match p {
                 syn::GenericParam::Lifetime(_) => {}
-                syn::GenericParam::Const(c) if c.ident == "N" && norm_tokens(&c.ty) == "usize" => has_n = true,
+                syn::GenericParam::Const(c) if c.ident == "N" && norm_tokens(&c.ty) == "usize" => r.has_n = true,
+                // the capacity / length of the other operand of a comparison
+                syn::GenericParam::Const(c) if c.ident == "M" && norm_tokens(&c.ty) == "usize" => {}
                 syn::GenericParam::Type(t) => {
                     let bs: Vec<String> = t.bounds.iter().map(|b| norm_tokens(b)).collect();
-                    check_bounds(&t.ident.to_string(), bs, t.span())?;
+                    check_bounds(&mut r, &t.ident.to_string(), bs, t.span())?;
                 }
                 other => return unsupported("generic parameter", other.span()),
             }
@@ -380,14 +477,14 @@ fn generics_of(gs: &[&syn::Generics]) -> Res<(Vec<String>, bool, Vec<String>)> {
                     syn::WherePredicate::Type(t) => {
                         let name = norm_tokens(&t.bounded_ty);
                         let bs: Vec<String> = t.bounds.iter().map(|b| norm_tokens(b)).collect();
-                        check_bounds(&name, bs, t.span())?;
+                        check_bounds(&mut r, &name, bs, t.span())?;
                     }
                     other => return unsupported("where predicate", other.span()),
                 }
             }
         }
     }
-    Ok((bounds, has_n, closures))
+    Ok(r)
 }
 
 /// the signature of a function, in model types
@@ -396,7 +493,9 @@ fn signature(un: &Unit, s: &Src) -> Res<FnInfo> {
         let p = a.path();
         let t = norm_tokens(a);
         if !(p.is_ident("inline") || p.is_ident("doc") || p.is_ident("must_use") || p.is_ident("allow")
-            || t == "# [cfg (not (feature = \"unstable\"))]")
+            || t == "# [cfg (not (feature = \"unstable\"))]"
+            || t == "# [cfg (feature = \"alloc\")]"
+            || (t == "# [cfg (feature = \"unstable\")]" && matches!(un.loc, Loc::FreeU(_))))
         {
             return unsupported(&format!("attribute `{}`", t), a.span());
         }
@@ -412,11 +511,26 @@ fn signature(un: &Unit, s: &Src) -> Res<FnInfo> {
     if let Some(ig) = &s.impl_generics {
         gs.push(ig);
     }
-    let (bounds_params, has_n, closures) = generics_of(&gs)?;
+    let gens = generics_of(&gs)?;
+    let (bounds_params, has_n, closures, osr_params) = (gens.bounds.clone(), gens.has_n, gens.closures.clone(), gens.osrs.clone());
+    let mut fparams: Vec<(String, String)> = vec![];
+    if gens.eqf {
+        fparams.push(("eqf".into(), "elem -> elem -> bool".into()));
+    }
+    if gens.cmpf {
+        fparams.push(("cmpf".into(), "elem -> elem -> option comparison".into()));
+    }
+    let unstable = matches!(un.loc, Loc::FreeU(_));
+    if !osr_params.is_empty() && !unstable {
+        return unsupported("OneSidedRange bound outside a `cfg(feature = \"unstable\")` function", g.generics.span());
+    }
     let bytes = un.file == "src/io.rs" || un.file == "src/embedded_io.rs";
     let cx = TyCtx {
         owner: s.owner.clone(),
         bounds_params,
+        osr_params,
+        hasher_params: gens.hashers.clone(),
+        driver_params: gens.drivers.clone(),
         assoc: s.assoc.clone(),
         list_params: un.lists.iter().map(|s| s.to_string()).collect(),
         bytes,
@@ -436,7 +550,13 @@ fn signature(un: &Unit, s: &Src) -> Res<FnInfo> {
                     o if rec_coq(o).is_some() => Ty::Rec(o.to_string()),
                     o => return unsupported(&format!("receiver of type {}", o), r.span()),
                 };
-                if r.reference.is_none() && (t == Ty::Buf || owner != "CircularSlicePtr") {
+                if r.reference.is_none() && (t == Ty::Buf || owner != "CircularSlicePtr") && !(s.ref_impl && r.mutability.is_none()) {
+                    if t == Ty::Buf {
+                        return unsupported(
+                            "the buffer received by value (`self`): it is moved into what the function returns (an IntoIter that wraps it); in the model the wrapped buffer is the state itself, so the function has no counterpart to be equal to",
+                            r.span(),
+                        );
+                    }
                     return unsupported("receiver by value of a type that is not Copy", r.span());
                 }
                 self_mut = r.reference.is_some() && r.mutability.is_some();
@@ -470,7 +590,11 @@ fn signature(un: &Unit, s: &Src) -> Res<FnInfo> {
                         _ => return unsupported(&format!("parameter `{}` expected to be a slice outside the array", n), pt.ty.span()),
                     }
                 }
-                if matches!(t, Ty::Range | Ty::Bounds | Ty::Buf | Ty::Closure) {
+                if t == Ty::Buf && self_ty == Some(Ty::Buf) {
+                    // a second buffer, next to the receiver
+                    t = Ty::OBuf;
+                }
+                if matches!(t, Ty::Range | Ty::Bounds | Ty::Buf | Ty::Closure | Ty::Formatter | Ty::Hasher) {
                     params.push(Param { name: n, ty: t, by_mut_ref: false });
                     continue;
                 }
@@ -482,6 +606,21 @@ fn signature(un: &Unit, s: &Src) -> Res<FnInfo> {
         }
     }
     let ret = match &g.output {
+        // a constructor: see Ty::NewBuf
+        syn::ReturnType::Type(_, t) if norm_tokens(t) == "Self" && s.owner.as_deref() == Some("CircularBuffer") && !s.ref_impl => {
+            if params.iter().any(|p| matches!(p.ty, Ty::Buf | Ty::OBuf)) || (self_ty.is_some() && self_ty != Some(Ty::Buf)) || self_mut {
+                return unsupported(
+                    "a function that receives a buffer as an argument and returns another by value (in the model the buffer is the state of the computation; two buffers are not)",
+                    t.span(),
+                );
+            }
+            if self_ty.is_some() { Ty::RetBuf } else { Ty::NewBuf }
+        }
+        // the order of the elements is a parameter that yields `option comparison` (the model's
+        // rendering of PartialOrd and of Ord alike): so does what Iterator::cmp makes of it
+        syn::ReturnType::Type(_, t) if norm_tokens(t) == "Ordering" && matches!(un.loc, Loc::Method(_, Some("Ord"), "cmp")) => {
+            Ty::Opt(Box::new(Ty::Ordering))
+        }
         syn::ReturnType::Type(_, t) => type_of(t, &cx)?,
         syn::ReturnType::Default => Ty::Unit,
     };
@@ -489,6 +628,7 @@ fn signature(un: &Unit, s: &Src) -> Res<FnInfo> {
         return unsupported(&format!("return type {}", ret.show()), g.output.span());
     }
     let name = g.ident.to_string();
+    let mem_param = ret == Ty::RetBuf;
     Ok(FnInfo {
         key: un.key.to_string(),
         owner: s.owner.clone(),
@@ -499,6 +639,9 @@ fn signature(un: &Unit, s: &Src) -> Res<FnInfo> {
         ret,
         has_n,
         file: un.file.to_string(),
+        fparams,
+        copy_elems: gens.copy,
+        mem_param,
     })
 }
 
@@ -528,6 +671,10 @@ fn qualify(text: &str) -> String {
         ("d_re", "Drain.d_re"), ("d_is", "Drain.d_is"), ("d_ie", "Drain.d_ie"), ("csp", "Drain.csp"),
         ("mkC", "Drain.mkC"), ("c_len", "Drain.c_len"), ("c_off", "Drain.c_off"), ("slice_read", "Io.slice_read"),
         ("zlen", "Buf.zlen"),
+        ("iter_for_each", "Traits.iter_for_each"), ("cloned_for_each", "Traits.cloned_for_each"), ("iter_cmp_loop", "Traits.iter_cmp_loop"), ("slice_eq", "Traits.slice_eq"),
+        ("osr", "Unstable.osr"), ("sl_split_off", "Unstable.sl_split_off"), ("sl_split_off_mut", "Unstable.sl_split_off_mut"),
+        ("sl_split_off_first", "Unstable.sl_split_off_first"), ("sl_split_off_first_mut", "Unstable.sl_split_off_first_mut"),
+        ("sl_split_off_last", "Unstable.sl_split_off_last"), ("sl_split_off_last_mut", "Unstable.sl_split_off_last_mut"),
     ];
     let mut out = String::new();
     let mut tok = String::new();
@@ -590,6 +737,8 @@ fn attempt(
             nested: HashMap::new(),
             aux: vec![],
             loops: 0,
+            fuel_ix: 0,
+            mem_used: false,
             fuel: un.fuel,
             harmless: true,
             user: false,
@@ -611,6 +760,14 @@ fn attempt(
                 ptypes.push(c);
             }
             _ => {}
+        }
+        for (n, c) in &me.fparams {
+            params.push(format!("({} : {})", n, c));
+            ptypes.push(c.clone());
+        }
+        if me.mem_param {
+            params.push("(mem' : cbuf)".to_string());
+            ptypes.push("cbuf".to_string());
         }
         for p in &me.params {
             let id = syn::Ident::new(&p.name, s.span);
@@ -634,6 +791,8 @@ fn attempt(
                 }
                 Ty::Buf => Val::atom("<buffer>", Ty::Buf),
                 Ty::Closure => Val::atom("<closure>", Ty::Closure),
+                Ty::Formatter => Val::atom("<formatter>", Ty::Formatter),
+                Ty::Hasher => Val::atom("<hasher>", Ty::Hasher),
                 ty => {
                     let c = ty.coq().expect("checked in signature");
                     params.push(format!("({} : {})", cn, c));
@@ -755,6 +914,23 @@ Definition gen_repr_guard (c : bool) : M unit := if c then ret tt else panic PMe
 
 (* &x[k..] / &x[..k] on data outside the array *)
 Definition gen_bounds_check (c : bool) : M unit := if c then ret tt else panic PBounds.
+
+(* a value of a type I: IntoIterator<Item = T> is rendered as the function that runs a closure on
+   every item; this is the one of a user iterator that owns xs: every step is a user call, and when
+   anything unwinds the iterator is destroyed and destroys the items it still owns *)
+Fixpoint gen_user_for_each (xs : list elem) (body : elem -> M unit) : M unit :=
+  on_unwind (emit EvNext;; user_call FNext) (drop_list xs);;
+  match xs with
+  | [] => ret tt
+  | x :: rest => on_unwind (body x) (drop_list rest);; gen_user_for_each rest body
+  end.
+
+(* the one of an iterator over borrowed elements, T: Copy: no user code *)
+Fixpoint gen_refs_for_each (xs : list elem) (body : elem -> M unit) : M unit :=
+  match xs with
+  | [] => ret tt
+  | x :: rest => body x;; gen_refs_for_each rest body
+  end.
 
 ";
 
@@ -1007,6 +1183,10 @@ fn run() -> Res<i32> {
         ("MaybeUninit", &["core::mem::MaybeUninit", "std::mem::MaybeUninit"], true),
         ("Range", &["core::ops::Range", "std::ops::Range"], true),
         ("RangeBounds", &["core::ops::RangeBounds", "std::ops::RangeBounds"], false),
+        ("fmt", &["core::fmt", "std::fmt"], false),
+        ("Ordering", &["core::cmp::Ordering", "std::cmp::Ordering"], false),
+        ("Hash", &["core::hash::Hash", "std::hash::Hash"], false),
+        ("Hasher", &["core::hash::Hasher", "std::hash::Hasher"], false),
         ("Iter", &["crate::iter::Iter"], false),
         ("IterMut", &["crate::iter::IterMut"], false),
         ("Drain", &["crate::drain::Drain"], false),
@@ -1017,6 +1197,7 @@ fn run() -> Res<i32> {
             "src/iter.rs",
             &[
                 ("Bound", &["core::ops::Bound", "std::ops::Bound"], true),
+                ("fmt", &["core::fmt", "std::fmt"], false),
                 ("RangeBounds", &["core::ops::RangeBounds", "std::ops::RangeBounds"], true),
                 ("CircularBuffer", &["crate::CircularBuffer"], true),
             ],
@@ -1025,6 +1206,8 @@ fn run() -> Res<i32> {
             "src/drain.rs",
             &[
                 ("add_mod", &["crate::add_mod"], true),
+                ("fmt", &["core::fmt", "std::fmt"], false),
+                ("Iter", &["crate::iter::Iter"], false),
                 ("translate_range_bounds", &["crate::iter::translate_range_bounds"], true),
                 ("CircularBuffer", &["crate::CircularBuffer"], true),
                 ("ptr", &["core::ptr", "std::ptr"], true),
@@ -1090,10 +1273,17 @@ fn run() -> Res<i32> {
             Ok(info) => {
                 // inherent methods and free functions are what calls resolve to; trait methods
                 // too, unless an inherent method of the same type has the name
-                let k = (info.owner.clone(), info.name.clone());
-                let inherent = !matches!(un.loc, Loc::Method(_, Some(_), _));
-                if inherent || !index.contains_key(&k) {
-                    if !(k.0.as_deref() == Some("CircularBuffer") && !inherent) {
+                let k = (if s.ref_impl { info.owner.as_ref().map(|o| format!("&{}", o)) } else { info.owner.clone() }, info.name.clone());
+                // one of several impls of a generic trait: `name<args>`
+                let k = match un.loc {
+                    Loc::MethodG(_, _, targs, _) => (k.0, format!("{}{}", k.1, targs.replace(' ', ""))),
+                    _ => k,
+                };
+                let inherent = !matches!(un.loc, Loc::Method(_, Some(_), _) | Loc::MethodG(..));
+                if matches!(un.loc, Loc::FreeU(_)) {
+                } else if inherent || !index.contains_key(&k) {
+                    // (of the trait methods of the buffer only Debug::fmt is called by name: IntoIter's Debug)
+                    if !(k.0.as_deref() == Some("CircularBuffer") && !inherent) || k.1 == "fmt" || k.1 == "eq<[U]>" || k.1.starts_with("extend<") || k.1 == "from_iter" {
                         index.insert(k, un.key.to_string());
                     }
                 }
@@ -1193,6 +1383,13 @@ fn run() -> Res<i32> {
     }
 
     let pre_check = |s: &Src| -> Res<()> {
+        if s.attrs.iter().any(|a| norm_tokens(a) == "# [cfg (feature = \"unstable\")]") {
+            let mut ids = HashSet::new();
+            collect_idents(quote::ToTokens::to_token_stream(&s.block), &mut ids);
+            if ids.contains("cfg") {
+                return Err("conditional compilation inside the body of a `cfg(feature = \"unstable\")` function".into());
+            }
+        }
         if uses_assume(s) {
             assume_ok.clone()
         } else {
@@ -1212,8 +1409,8 @@ fn run() -> Res<i32> {
     let mut out = String::new();
     out.push_str("(* CoreGen.v — GENERATED by tools/rs2coq_core from src/*.rs. Do not edit. *)\n\n");
     out.push_str("From CB Require Import Machine.\n");
-    out.push_str("(* only the record types of the model (iter, drain, csp, bound), zlen and the model of\n   <&[u8] as Read>::read (slice_read) are referred to, by their qualified names *)\n");
-    out.push_str("From CB Require Buf Iter Drain Io.\n");
+    out.push_str("(* only the record types of the model (iter, drain, csp, bound, osr), zlen, the model of\n   <&[u8] as Read>::read (slice_read), the combinators of Traits.v the std adaptors are rendered as\n   (iter_for_each, iter_cmp_loop, slice_eq) and the models of the nightly slice functions\n   (Unstable.sl_split_off and its variants) are referred to, by their qualified names *)\n");
+    out.push_str("From CB Require Buf Iter Drain Traits Io Unstable.\n");
     out.push_str("Open Scope Z_scope.\n\n");
     out.push_str(PRELUDE);
     for (_, d) in &order {
@@ -1258,7 +1455,27 @@ fn run() -> Res<i32> {
     for (k, un) in all.iter().enumerate() {
         write!(js, "  {}: {}{}\n", json_str(un.key), json_str(un.item), if k + 1 == all.len() { "" } else { "," }).unwrap();
     }
-    js.push_str(" }\n}\n");
+    js.push_str(" },\n \"covered_items\": {\n");
+    // the destructors of the structs declared inside a translated function are rendered where a
+    // value of the struct dies, as part of that function
+    let mut cov: Vec<(String, String)> = vec![];
+    for (n, _) in &order {
+        let un = all.iter().find(|u| u.key == n).unwrap();
+        if let Some(sr) = srcs.get(n.as_str()) {
+            for st in &sr.block.stmts {
+                if let syn::Stmt::Item(Item::Impl(im)) = st {
+                    let is_drop = im.trait_.as_ref().map(|(_, p, _)| p.is_ident("Drop")).unwrap_or(false);
+                    if let (true, Some(tn)) = (is_drop, impl_type_name(im)) {
+                        cov.push((format!("{}::{}::drop", un.item, tn), n.clone()));
+                    }
+                }
+            }
+        }
+    }
+    for (k, (item, f)) in cov.iter().enumerate() {
+        write!(js, "  {}: {}{}\n", json_str(item), json_str(f), if k + 1 == cov.len() { "" } else { "," }).unwrap();
+    }
+    write!(js, " }},\n \"std_table\": {}\n}}\n", stdtab::table_json()).unwrap();
     let jp = format!("{}.json", pos[1]);
     std::fs::write(&jp, js).map_err(|e| format!("cannot write {}: {}", jp, e))?;
 
